@@ -204,6 +204,17 @@ func (w *World) sweepsFor(prop string, cfg *RunCfg) []workItem {
 			}
 			items = append(items, workItem{fn: fn, why: "redact.Safe sink sweep", opts: VerifyOpts{Props: map[string]bool{"C03": true}, Safety: false, ExtraRequires: ifaceParamsNonNil}})
 		}
+	case "C18":
+		// frame sweep: every function of the module's non-test packages is executed symbolically
+		// and every heap store / map update / global store / pointer argument handed to a module
+		// callee carries the obligation "owned by this call" (see frameOwned)
+		for _, fn := range w.frameSweepFuncs() {
+			items = append(items, workItem{fn: fn, why: "read-only frame sweep", opts: VerifyOpts{
+				Props: map[string]bool{"C18": true}, Safety: false, Frame: true,
+				OnlyKinds:     map[string]bool{"frame": true},
+				ExtraRequires: ifaceParamsNonNil,
+			}})
+		}
 	case "C10":
 		// nil discipline sweep: every exported function of the module that takes one error and
 		// returns an error returns nil for a nil argument (functions with an explicit C10 contract
@@ -410,4 +421,50 @@ func (w *World) encoderSafetySweep(items []workItem) []workItem {
 		}})
 	}
 	return items
+}
+
+// frameMutators: the functions whose documented purpose is to change process-wide state; they are
+// not observers and are excluded from the read-only sweep (C18 statement: registration is not in
+// scope).
+var frameMutators = map[string]bool{
+	"SetWarningFn": true, "TestingWithEmptyMigrationRegistry": true,
+}
+
+// frameSweepFuncs: all functions with bodies of the module's non-test, non-generated packages,
+// including closures, except init functions and the registration API.
+func (w *World) frameSweepFuncs() []*ssa.Function {
+	var out []*ssa.Function
+	for fn := range w.AllFuncs {
+		if fn.Pkg == nil && fn.Parent() != nil {
+			// closures carry their parent's package
+		}
+		pkg := fn.Pkg
+		if pkg == nil && fn.Parent() != nil {
+			pkg = fn.Parent().Pkg
+		}
+		if pkg == nil || !w.InModule(pkg.Pkg) || w.isGenerated(fn) || len(fn.Blocks) == 0 {
+			continue
+		}
+		p := pkg.Pkg.Path()
+		if strings.Contains(p, "testutils") || strings.Contains(p, "fmttests") {
+			continue
+		}
+		if pos := w.Fset.Position(fn.Pos()); strings.HasSuffix(pos.Filename, "_test.go") || pos.Filename == "" {
+			continue
+		}
+		if fn.Synthetic != "" {
+			continue
+		}
+		root := fn
+		for root.Parent() != nil {
+			root = root.Parent()
+		}
+		name := root.Name()
+		if strings.HasPrefix(name, "init") || strings.HasPrefix(name, "Register") || frameMutators[name] {
+			continue
+		}
+		out = append(out, fn)
+	}
+	sort.Slice(out, func(i, j int) bool { return out[i].String() < out[j].String() })
+	return out
 }
